@@ -40,6 +40,7 @@ from werkzeug.urls import iri_to_uri, uri_to_iri
 from werkzeug.test import EnvironBuilder
 from werkzeug.wrappers import Request
 from werkzeug.middleware.dispatcher import DispatcherMiddleware
+from werkzeug.wsgi import get_current_url as wsgi_get_current_url
 
 common.assert_tree()
 
@@ -165,7 +166,7 @@ class _Fails:
     def case(self, check, key, nontrivial=True):
         self.n += 1
         if nontrivial:
-            self.keys.add((check, key))
+            self.keys.add(hash((check, key)))  # 64-bit hash: the key sets are merged across (forked) processes
         if len(self.samples) < 3 and self.n % 997 == 1:
             self.samples.append({"check": check, "input": key})
 
@@ -175,6 +176,14 @@ class _Fails:
         if k < MAX_PER_CHECK:
             self.fails.append({"check": check, "input": common._j(inp), "observed": str(observed)[:500],
                                "expected": str(expected)[:300]})
+
+
+class _Suffixed:
+    def __init__(self, F, sfx):
+        self.F, self.sfx = F, sfx
+
+    def fail(self, check, inp, observed, expected):
+        self.F.fail(check + self.sfx, inp, observed, expected)
 
 
 def _merge(c, f):
@@ -210,11 +219,75 @@ def _is_uri(s):
     return all(ch in _URI_CHARS for ch in s)
 
 
-def check_iri(x, F, count=True):
-    """x: a URL of the grammar (an IRI; it is also taken as a URI when it only has URI characters)"""
+def _bad_alabel(host):
+    """some label claims to be punycode ('xn--') but is not the punycode of anything that encodes back to it"""
+    if host.startswith("["):
+        return False
+    for lab in host.lower().split("."):
+        if lab.startswith("xn--"):
+            try:
+                dec = lab[4:].encode("ascii").decode("punycode")
+                if not dec or dec.isascii() or "xn--" + dec.encode("punycode").decode("ascii") != lab:
+                    return True
+            except (UnicodeError, ValueError):
+                return True
+    return False
+
+
+_DANGLING = re.compile(r"%(?![0-9A-Fa-f]{2})")
+
+
+_BRACKET_ESC = re.compile(r"%5[BbDd]")
+
+
+def iri_shapes(x):
+    """syntactic classes of the input (from the input text only).  A failure is reported as 'check@shape' when the
+    input has a shape that bears on that check, so that one finding cannot use up the failure slots of another."""
+    try:
+        _s, ui, host, port, _p, _q, _f = split_url(x)
+    except Exception:  # noqa: BLE001
+        return set()
+    out = set()
+    if _bad_alabel(host):
+        out.add("bad_punycode_label")
+    if _DANGLING.search(x):
+        out.add("dangling_percent")
+    if port and port.strip("0") == "":
+        out.add("port_zero")
+    if ui and ui.startswith(":") and len(ui) > 1:
+        out.add("empty_user_with_password")
+    if ui and _BRACKET_ESC.search(ui):
+        out.add("escaped_bracket_in_userinfo")
+    return out
+
+
+class _IriFail:
+    def __init__(self, F, shapes):
+        self.F, self.shapes = F, shapes
+
+    def fail(self, check, inp, observed, expected):
+        if "exception" in check:
+            prefs = ("bad_punycode_label", "escaped_bracket_in_userinfo")
+        elif check.endswith("meaning_port"):
+            prefs = ("port_zero",)
+        elif check.endswith("meaning_userinfo"):
+            prefs = ("empty_user_with_password", "dangling_percent")
+        else:
+            prefs = ("dangling_percent",)
+        for sh in prefs:
+            if sh in self.shapes:
+                check += "@" + sh
+                break
+        self.F.fail(check, inp, observed, expected)
+
+
+def check_iri(x, F, count=True, exact=False):
+    """x: a URL of the grammar (an IRI; it is also taken as a URI when it only has URI characters).
+    exact: x is an IRI in normal form, the round trip must give it back character for character"""
     if count:
         F.case("iri", x, True)
     inp = {"url": x}
+    F = _IriFail(F, iri_shapes(x))
     try:
         u = iri_to_uri(x)
         uu = iri_to_uri(u)
@@ -224,46 +297,48 @@ def check_iri(x, F, count=True):
     if not isinstance(u, str) or not u.isascii():
         F.fail("iri_to_uri_ascii", inp, repr(u), "pure ASCII")
         return
-    if uu != u:
-        F.fail("iri_to_uri_idempotent", inp, f"{u!r} -> {uu!r}", "iri_to_uri(iri_to_uri(x)) == iri_to_uri(x)")
-    mx = meaning(x)
-    mu = meaning(u)
-    if mu != mx:
-        F.fail("iri_to_uri_meaning", inp, f"{u!r}: {_diff(mx, mu)!r}"[:500],
-               "same scheme / userinfo / host / port / delimiter-separated decoded bytes as the input")
     if any(ord(c) < 0x21 or ord(c) == 0x7F for c in u):
         F.fail("iri_to_uri_ascii", inp, repr(u), "no literal control / space in a URI")
+    if uu != u:
+        F.fail("iri_to_uri_idempotent", inp, f"{u!r} -> {uu!r}", "iri_to_uri(iri_to_uri(x)) == iri_to_uri(x)")
+        return
+    mx = meaning(x)
+    mu = meaning(u)
+    bad = False
+    for comp in _diff(mx, mu):
+        bad = True
+        F.fail("iri_to_uri_meaning_" + comp, inp, f"{u!r}: {comp}: {mx[comp]!r} became {mu[comp]!r}"[:500],
+               "same " + comp + " (delimiter-separated decoded bytes) as the input")
+    if bad:
+        return
     # URI -> IRI, on the URI just produced and on the input itself when it is spelled with URI characters only
     for tag, y in (("", u), ("direct_", x)):
         if tag and (x == u or not _is_uri(x)):
             continue
         try:
             j = uri_to_iri(y)
-            jj = uri_to_iri(j)
-            back = iri_to_uri(j)
-            j2 = uri_to_iri(back)
-            back2 = iri_to_uri(j2)
         except Exception as e:  # noqa: BLE001
-            F.fail(tag + "uri_to_iri_exception", inp, f"{y!r}: {e!r}", "an IRI")
+            F.fail(tag + "uri_to_iri_exception", inp, f"uri_to_iri({y!r}): {e!r}", "an IRI")
+            continue
+        try:
+            jj = uri_to_iri(j)
+        except Exception as e:  # noqa: BLE001
+            F.fail(tag + "uri_to_iri_reparse_exception", inp, f"{y!r} -> {j!r}, then uri_to_iri({j!r}): {e!r}",
+                   "the IRI produced is a URL again (uri_to_iri is idempotent)")
             continue
         if jj != j:
             F.fail(tag + "uri_to_iri_idempotent", inp, f"{y!r} -> {j!r} -> {jj!r}",
                    "uri_to_iri(uri_to_iri(y)) == uri_to_iri(y)")
+            continue
         my, mj = meaning(y), meaning(j)
-        if mj != my:
-            F.fail(tag + "uri_to_iri_meaning", inp, f"{y!r} -> {j!r}: {_diff(my, mj)!r}"[:500],
-                   "same scheme / userinfo / host / port / delimiter-separated decoded bytes as the URI")
-        if j2 != j:
-            F.fail(tag + "roundtrip_iri_fixpoint", inp, f"{j!r} -> {back!r} -> {j2!r}",
-                   "uri_to_iri(iri_to_uri(j)) == j for j = uri_to_iri(y)")
-        if back2 != back:
-            F.fail(tag + "roundtrip_uri_fixpoint", inp, f"{back!r} -> {j2!r} -> {back2!r}",
-                   "iri_to_uri(uri_to_iri(v)) == v for v = iri_to_uri(uri_to_iri(y))")
-        if meaning(back) != my:
-            F.fail(tag + "roundtrip_meaning", inp, f"{y!r} -> {j!r} -> {back!r}: {_diff(my, meaning(back))!r}"[:500],
-                   "iri_to_uri undoes uri_to_iri up to normalisation (same meaning)")
-        if not back.isascii():
-            F.fail("iri_to_uri_ascii", inp, repr(back), "pure ASCII")
+        bad = False
+        for comp in _diff(my, mj):
+            bad = True
+            F.fail(tag + "uri_to_iri_meaning_" + comp, inp,
+                   f"{y!r} -> {j!r}: {comp}: {my[comp]!r} became {mj[comp]!r}"[:500],
+                   "same " + comp + " (delimiter-separated decoded bytes) as the URI")
+        if bad:
+            continue
         # spelled-as-escape clauses
         sy, sj = split_url(y), split_url(j)
         for idx, which in ((4, "path"), (5, "query"), (6, "fragment"), (1, "user")):
@@ -276,15 +351,53 @@ def check_iri(x, F, count=True):
             elif any(ord(c) < 0x21 or ord(c) == 0x7F for c in b_):
                 F.fail(tag + "uri_to_iri_kept_quoted", inp, f"{which}: {a_!r} -> {b_!r}",
                        "no literal control / space in the IRI")
+        if exact and not tag and j != x:
+            F.fail("roundtrip_exact", inp, f"{u!r} -> {j!r}", "uri_to_iri(iri_to_uri(x)) == x for an IRI in normal form")
+        # the round trip settles after one step
+        try:
+            back = iri_to_uri(j)
+            j2 = uri_to_iri(back)
+            back2 = iri_to_uri(j2)
+        except Exception as e:  # noqa: BLE001
+            F.fail(tag + "roundtrip_exception", inp, f"{y!r} -> {j!r}: {e!r}", "the IRI converts back")
+            continue
+        if not back.isascii():
+            F.fail("iri_to_uri_ascii", inp, repr(back), "pure ASCII")
+        if j2 != j:
+            F.fail(tag + "roundtrip_iri_fixpoint", inp, f"{j!r} -> {back!r} -> {j2!r}",
+                   "uri_to_iri(iri_to_uri(j)) == j for j = uri_to_iri(y)")
+        if back2 != back:
+            F.fail(tag + "roundtrip_uri_fixpoint", inp, f"{back!r} -> {j2!r} -> {back2!r}",
+                   "iri_to_uri(uri_to_iri(v)) == v for v = iri_to_uri(uri_to_iri(y))")
+        mb = meaning(back)
+        for comp in _diff(my, mb):
+            F.fail(tag + "roundtrip_meaning_" + comp, inp,
+                   f"{y!r} -> {j!r} -> {back!r}: {comp}: {my[comp]!r} became {mb[comp]!r}"[:500],
+                   "iri_to_uri undoes uri_to_iri up to normalisation (same " + comp + ")")
+
+
+# IRIs in normal form (nothing to normalise): the round trip must be the identity
+NF_AUTH = ["example.com", "☃.net", "bücher.example:8080", "日本語.jp", "user@☃.net", "üser:pä@example.com:81",
+           "127.0.0.1:5000", "[::1]", "[2001:db8::1]:8080", "u%40x:p%3Aw@example.com"]
+NF_SEG = ["", "a", "ü", "☃😀", "x%2Fy", "%20", "%25", "%FF", "a;b=c", "~._-", "%3F%23", "é%00", "%C3%2F", "%2541"]
+NF_QUERY = [None, "k=v", "ü=☃", "a%26b=c%3Dd", "x=%2B", "%23", "a+b", "%FF=%20", "k=%25", "a=b&c=d&ü"]
+NF_FRAG = [None, "f", "☃", "%20", "%25", "a?b/c", "%FF"]
+
+
+def _nf_urls():
+    for auth, s1, s2 in itertools.product(NF_AUTH, NF_SEG, NF_SEG):
+        yield f"http://{auth}/{s1}/{s2}?k=ä#☃"
+    for auth, q, f in itertools.product(NF_AUTH, NF_QUERY, NF_FRAG):
+        yield f"https://{auth}/p/ü" + ("?" + q if q is not None else "") + ("#" + f if f is not None else "")
 
 
 SCHEMES = ["http", "https", "ftp", "ws", "HTTP", "itms-services", "x-y.z+1"]
-USERINFO = [None, "user", "user:pw", "u%40x:p%3Aw", "üser:pä", "u%FFx", "user:", "%zz", "u%2Fx:p%3Fw%23",
+USERINFO = [None, "", "user", "user:pw", ":pw", "u%40x:p%3Aw", "üser:pä", "u%FFx", "user:", "%zz", "u%2Fx:p%3Fw%23",
             "a%25:b", "u ser", "u%C3%BC"]
 HOSTS = ["example.com", "EXAMPLE.com", "localhost", "127.0.0.1", "[::1]", "[2001:DB8::1]", "bücher.example",
          "xn--bcher-kva.example", "☃.net", "xn--n3h.net", "XN--N3H.net", "日本語.jp", "a.b.",
          "xn--zzzzzz-.example", "BÜCHER.example", "a-b.c_d", "1.2.3.4.example"]
-PORTS = ["", ":80", ":8080", ":443", ":65535", ":", ":080", ":1"]
+PORTS = ["", ":80", ":8080", ":443", ":65535", ":", ":080", ":1", ":0"]
 PATH_ATOMS = ["a", "ü", "☃", "%C3%BC", "%c3%bc", "%FF", "%C3", "%2F", "%2f", "%3F", "%23", "%25", "%20", " ",
               "%zz", "%", "%4", ";", "=", "&", "+", ":", "@", "[", "]", "\"", "<", "\\", "^", "|", "{", "~", "'", "(", "!",
               "*", ",", "$", "%7E", "%41", "%00", "%0A", "%7F", "\x7f", "%E2%98%83", "\U0001f600", "%F0%9F%98%80", "́",
@@ -307,7 +420,7 @@ def _urls_quick():
                     continue
                 atoms = [a for a in atoms if not any(c in a for c in "/?#@:[]")]
             singles = list(atoms)
-            pairs = [a + b for a in atoms for b in atoms]
+            pairs = [a + b for a in atoms for b in atoms] if auth == "example.com" else []
             for v in singles + pairs:
                 if comp == "path":
                     yield f"http://{auth}/{v}"
@@ -380,6 +493,9 @@ def _iri_task(args):
             continue
         seen.add(x)
         check_iri(x, F)
+    for i, x in enumerate(_nf_urls()):
+        if i % nk == k:
+            check_iri(x, F, exact=True)
     return F
 
 
@@ -395,6 +511,11 @@ def _enc_all(s):
 
 def _dec_text(s):
     return _pct_bytes(s).decode("utf-8", "replace")
+
+
+def _dec_keep_invalid(s):
+    raw = _pct_bytes(s.replace("+", " ")).decode("utf-8", "surrogateescape")
+    return "".join("%{:02X}".format(ord(ch) - 0xDC00) if 0xDC80 <= ord(ch) <= 0xDCFF else ch for ch in raw)
 
 
 def _expected_host(scheme, netloc_ascii):
@@ -419,7 +540,7 @@ def _ascii_host(host):
     return ".".join(out)
 
 
-ENV_PATH_ATOMS = ["a", "b c", "ü", "☃", "\U0001f600", "%C3%BC", "%2F", "%3F", "%23", "%25", "%20", ";", "=", "&",
+ENV_PATH_ATOMS = ["%FF", "%C3%28", "a", "b c", "ü", "☃", "\U0001f600", "%C3%BC", "%2F", "%3F", "%23", "%25", "%20", ";", "=", "&",
                   "+", ":", "@", "[", "]", "\"", "<", "\\", "^", "|", "{", "}", "~", "'", "(", ")", "!", "*", ",", "$", ".",
                   "..", "́", " ", "\x01", "\x7f", "\xff", "Ā", "%E2%98%83", "%41", "//", "/", "é",
                   "�", "​", "﻿", "‮", "\t", "\n", "\r", "\x00", "\x1f", "\x85", " "]
@@ -429,16 +550,28 @@ ENV_QUERY_STRS = ["", "a", "b c", "ü", "☃", "\U0001f600", "&", "=", "+", "%",
 ENV_BASES = [None, "http://localhost/", "http://localhost", "http://example.com:8080/", "https://example.com/",
              "https://example.com:443/", "http://example.com:80/app", "http://example.com:443/", "https://example.com:80/x",
              "http://example.com/app/", "http://example.com/a/b", "http://bücher.example/", "http://☃.net:81/snöw",
-             "http://127.0.0.1:5000/", "http://[::1]:5000/", "http://[::1]/r", "ws://example.com/s", "wss://example.com:443/s",
+             "http://127.0.0.1:5000/", "http://[::1]:5000/", "http://[::1]/r", "ws://example.com/s", "wss://example.com:443/s", "ws://example.com:80/s", "ws://example.com:443/",
              "http://example.com/a%20b", "http://example.com/ü/%C3%BC", "http://example.com/a%2Fb", "http://xn--n3h.net/",
              "http://EXAMPLE.com/", "http://example.com/a;b=c", "http://example.com/a:b@c"]
 
 
+def env_in_domain(path):
+    """the quantifier: paths start with '/', not with '//' (neither as written nor once percent-decoded), and
+    have no literal '?' / '#' (those end the path component of what is given)"""
+    return path.startswith("/") and not path.startswith("//") and not _dec_text(path).startswith("//") \
+        and "?" not in path and "#" not in path
+
+
 def check_environ(path, query, base_url, mode, F, count=True):
-    """query: list of (key, value) pairs; mode: 'dict' | 'multi' | 'string' | 'inpath'"""
+    """query: list of (key, value) pairs; mode: 'dict' | 'multi' | 'string' | 'inpath' | 'rawstring' | 'literal'"""
     inp = {"path": path, "query": [list(kv) for kv in query], "base_url": base_url, "mode": mode}
+    if not env_in_domain(path):
+        return
     if count:
         F.case("environ", repr((path, query, base_url, mode)), True)
+    # a literal tab / CR / LF in the path is removed by urllib's WHATWG pre-processing: reported under its own name
+    sfx = "_tabcrlf" if any(ch in path for ch in "\t\r\n") else ""
+    F = _Suffixed(F, sfx)
     try:
         if mode == "dict":
             qarg = dict(query)
@@ -458,7 +591,21 @@ def check_environ(path, query, base_url, mode, F, count=True):
             want_args = {}
             for k_, v_ in query:
                 want_args.setdefault(k_, []).append(v_)
-            if mode == "string":
+            if mode == "literal":
+                # the pairs are spelled query-string text (escapes included); expectation by an own parser: '+' is a
+                # blank, escapes decode as UTF-8, bytes that are not UTF-8 stay spelled '%XX'
+                qs = "&".join(k_ + "=" + v_ for k_, v_ in query)
+                want_args = {}
+                for k_, v_ in query:
+                    want_args.setdefault(_dec_keep_invalid(k_), []).append(_dec_keep_invalid(v_))
+                b = EnvironBuilder(path=path, base_url=base_url, query_string=qs)
+            elif mode == "rawstring":
+                # only the query delimiters and '%' escaped; everything else (Unicode, '#', '?', blanks) as it is
+                def _raw(t):
+                    return "".join("%{:02X}".format(ord(ch)) if ch in "&=+%" else ch for ch in t)
+                qs = "&".join(_raw(k_) + "=" + _raw(v_) for k_, v_ in query)
+                b = EnvironBuilder(path=path, base_url=base_url, query_string=qs)
+            elif mode == "string":
                 b = EnvironBuilder(path=path, base_url=base_url, query_string=qs)
             else:
                 b = EnvironBuilder(path=path + "?" + qs, base_url=base_url)
@@ -467,21 +614,34 @@ def check_environ(path, query, base_url, mode, F, count=True):
         finally:
             b.close()
         req = Request(env)
+        w_full = wsgi_get_current_url(env)
+        w_noq = wsgi_get_current_url(env, strip_querystring=True)
+        w_root = wsgi_get_current_url(env, root_only=True)
+        w_host = wsgi_get_current_url(env, host_only=True)
         got = {"path": req.path, "args": {k_: req.args.getlist(k_) for k_ in req.args.keys()}, "host": req.host,
                "url": req.url, "base_url": req.base_url, "url_root": req.url_root, "root_path": req.root_path,
                "full_path": req.full_path, "qs": req.query_string, "scheme": req.scheme,
-               "script_name": env["SCRIPT_NAME"], "path_info": env["PATH_INFO"], "query_env": env["QUERY_STRING"]}
+               "script_name": env["SCRIPT_NAME"], "path_info": env["PATH_INFO"], "query_env": env["QUERY_STRING"],
+               "host_url": req.host_url}
     except Exception as e:  # noqa: BLE001
         F.fail("environ_exception", inp, repr(e), "a request")
         return
     # expectations, own codec
+    if mode == "multi":
+        # a MultiDict keeps the values of a key together (keys in order of first appearance)
+        order = []
+        for k_, _v in query:
+            if k_ not in order:
+                order.append(k_)
+        query = [(k_, v_) for key in order for k_, v_ in query if k_ == key]
     want_path = _dec_text(path)
     if base_url is None:
         scheme, host_given, port, script = "http", "localhost", "", ""
     else:
         scheme, _ui, host_given, port, script, _q, _f = split_url(base_url)
         scheme = scheme.lower()
-    netloc_ascii = _ascii_host(host_given) + (":" + port if port else "")
+    # RFC 3986 6.2.2.1: the host is case-insensitive and normalised to lower case
+    netloc_ascii = _ascii_host(host_given).lower() + (":" + port if port else "")
     want_host = _expected_host(scheme, netloc_ascii)
     want_root = _dec_text(script).rstrip("/")
     if got["path"] != want_path:
@@ -494,6 +654,10 @@ def check_environ(path, query, base_url, mode, F, count=True):
         F.fail("environ_host", inp, repr(got["scheme"]), repr(scheme))
     if got["root_path"] != want_root:
         F.fail("environ_root", inp, repr(got["root_path"]), repr(want_root))
+    if got["full_path"] != got["path"] + "?" + got["qs"].decode("utf-8", "replace"):
+        F.fail("environ_path", inp, repr(got["full_path"]), "path + '?' + query string")
+    if got["path"] != want_path:
+        return  # the URL checks below would only repeat it
     # WSGI tunnelling: the environ strings are latin-1 views of the UTF-8 bytes
     try:
         pi = got["path_info"].encode("latin-1").decode("utf-8")
@@ -504,20 +668,30 @@ def check_environ(path, query, base_url, mode, F, count=True):
     if not ok:
         F.fail("environ_tunnel", inp, f"SCRIPT_NAME={got['script_name']!r} PATH_INFO={got['path_info']!r}",
                f"latin-1 view of the UTF-8 bytes of {want_root + want_path!r}")
+    if mode == "literal":
+        return
     # reconstructed URLs: compared by independent meaning
     whost = _host_meaning(host_given)
     wport = int(port) if port else None
     if wport is not None and ((scheme in ("http", "ws") and wport == 80) or (scheme in ("https", "wss") and wport == 443)):
         wport = None
     full = (want_root + want_path).encode("utf-8")
-    for name, with_path, with_query in (("url", True, True), ("base_url", True, False), ("url_root", False, False)):
+    got.update({"wsgi.get_current_url": w_full, "wsgi.get_current_url(strip_querystring)": w_noq,
+                "wsgi.get_current_url(root_only)": w_root, "wsgi.get_current_url(host_only)": w_host})
+    nonascii = not (want_root + want_path).isascii()
+    for name, with_path, with_query in (("url", True, True), ("base_url", True, False), ("url_root", False, False),
+                                        ("host_url", None, False),
+                                        ("wsgi.get_current_url", True, True),
+                                        ("wsgi.get_current_url(strip_querystring)", True, False),
+                                        ("wsgi.get_current_url(root_only)", False, False),
+                                        ("wsgi.get_current_url(host_only)", None, False)):
         val = got[name]
         try:
             s2, ui2, h2, p2, path2, q2, f2 = split_url(val)
         except Exception as e:  # noqa: BLE001
             F.fail("environ_" + name, inp, repr(val), f"a URL ({e!r})")
             continue
-        exp_path = full if with_path else (want_root + "/").encode("utf-8")
+        exp_path = b"/" if with_path is None else full if with_path else (want_root + "/").encode("utf-8")
         got_pairs = None
         if q2:
             got_pairs = [tuple(_pct_bytes(x.replace("+", " ")) for x in (pair.split("=", 1) + [""])[:2])
@@ -539,11 +713,17 @@ def check_environ(path, query, base_url, mode, F, count=True):
             prob.append(("query", q2, exp_pairs))
         if f2 is not None or ui2 is not None:
             prob.append(("extra", val, "no fragment / userinfo"))
-        if prob:
+        if prob and name.startswith("wsgi.") and "\ufffd" in want_root + want_path:
+            pass  # invalid UTF-8 in the path: no exact expectation for the text form
+        elif prob and name.startswith("wsgi."):
+            # '@non_ascii_path': script root / path have a non-ASCII character (class of the input)
+            F.fail("wsgi_get_current_url" + ("@non_ascii_path" if nonascii else ""), inp,
+                   f"{name} = {val!r}: {prob!r}"[:500], "the URL of base_url + path + query")
+        elif prob:
             F.fail("environ_" + name, inp, f"{val!r}: {prob!r}"[:500], "the URL of base_url + path + query")
     # exact text when nothing needs quoting
     plain = all(ch in _UNRESERVED or ch == "/" for ch in path) and base_url is not None and base_url.isascii() \
-        and "%" not in base_url and base_url == base_url.lower() and not query \
+        and "%" not in base_url and base_url == base_url.lower() and "xn--" not in base_url and not query \
         and _expected_host(scheme, netloc_ascii) == netloc_ascii and ";" not in base_url and "@" not in base_url
     if plain:
         exp = base_url.rstrip("/") + path
@@ -552,14 +732,12 @@ def check_environ(path, query, base_url, mode, F, count=True):
     # query string bytes decode to the mapping
     try:
         qpairs = [tuple(_pct_bytes(x.replace("+", " ")).decode("utf-8") for x in (pair.split("=", 1) + [""])[:2])
-                  for pair in got["qs"].decode("ascii").split("&")] if got["qs"] else []
+                  for pair in got["qs"].decode("utf-8").split("&")] if got["qs"] else []
     except UnicodeError as e:
         qpairs = repr(e)
     exp_q = list(dict(query).items()) if mode == "dict" else list(query)
     if qpairs != exp_q:
         F.fail("environ_query_string", inp, repr(got["qs"]), repr(exp_q)[:300])
-    if got["full_path"] != want_path + "?" + got["qs"].decode("latin-1"):
-        F.fail("environ_path", inp, repr(got["full_path"]), "path + '?' + query string")
 
 
 def _env_cases_quick():
@@ -578,14 +756,19 @@ def _env_cases_quick():
     # base urls x a few paths
     for base in ENV_BASES:
         for p in ("/", "/p", "/ü/%C3%BC", "/a b", "/%2F%3F%23%25", "/p;x=1", "/\U0001f600"):
-            for mode in ("dict", "string", "inpath"):
+            for mode in ("dict", "string", "inpath", "rawstring"):
                 yield (p, [("a", "b"), ("ü", "☃ &=+%#")], base, mode)
     # query: every key x value from the list, in every mode; pairs of pairs in multi mode
     qs = ENV_QUERY_STRS
     for k_ in qs:
         for v_ in qs:
-            for mode in ("dict", "multi", "string", "inpath"):
+            for mode in ("dict", "multi", "string", "inpath", "rawstring"):
                 yield ("/p", [(k_, v_)], "http://example.com/", mode)
+    lit = ["a", "%FF", "%C3%BC", "%C3", "%E2%98", "+", "%2B", "%26", "%3D", "%zz", "%", "ü", "%ED%A0%80", "%00", "a+b%20c", ""]
+    for k_ in lit:
+        for v_ in lit:
+            yield ("/p", [(k_, v_)], None, "literal")
+            yield ("/p", [("x" + k_ + v_, v_ + "y" + k_), (k_, "z")], "http://example.com/", "literal")
     for k_ in qs:
         for v_ in qs[:12]:
             yield ("/p", [(k_, v_), (k_, "2"), ("z", v_)], None, "multi")
@@ -608,7 +791,7 @@ def _env_cases_thorough(seed):
             k_ = "".join(r.choice(ENV_QUERY_STRS) if r.random() < 0.85 else chr(_rand_cp(r)) for _ in range(r.randint(0, 3)))
             v_ = "".join(r.choice(ENV_QUERY_STRS) if r.random() < 0.85 else chr(_rand_cp(r)) for _ in range(r.randint(0, 3)))
             query.append((k_, v_))
-        yield (path, query, r.choice(ENV_BASES), r.choice(["dict", "multi", "string", "inpath"]))
+        yield (path, query, r.choice(ENV_BASES), r.choice(["dict", "multi", "string", "inpath", "rawstring"]))
     # every code point in path and query
     for cp in range(0x110000):
         if 0xD800 <= cp <= 0xDFFF or (cp > 0x3000 and cp % 5):
@@ -696,7 +879,7 @@ def check_dispatch(mounts, path, script0, F, count=True):
     if sn is None or pi is None or sn + pi != s0 + path:
         F.fail("dispatch_concat", inp, f"SCRIPT_NAME={sn!r} PATH_INFO={pi!r}", f"concatenation {s0 + path!r}")
         return
-    if sn != want_script or pi != want_pi:
+    if (best is not None or path == "" or path.startswith("/")) and (sn != want_script or pi != want_pi):
         F.fail("dispatch_split", inp, f"SCRIPT_NAME={sn!r} PATH_INFO={pi!r}", f"{want_script!r} + {want_pi!r}")
     if pi and not pi.startswith("/") and best is not None:
         F.fail("dispatch_split", inp, f"PATH_INFO={pi!r}", "empty or starting with '/'")
@@ -746,14 +929,14 @@ def _dispatch_task(args):
 
 # ------------------------------------------------------------------------------------------------
 def _domain(tier):
-    return ("iri: 7 schemes x 12 userinfo x 17 hosts (ASCII, upper case, IDN, punycode, invalid punycode, IPv4, IPv6, "
-            "trailing dot) x 8 ports around a fixed tail; every atom and pair of atoms from a 75-atom alphabet (Unicode, "
+    return ("iri: 7 schemes x 14 userinfo x 17 hosts (ASCII, upper case, IDN, punycode, invalid punycode, IPv4, IPv6, "
+            "trailing dot) x 9 ports around a fixed tail; every atom and pair of atoms from a 75-atom alphabet (Unicode, "
             "valid / invalid / truncated UTF-8 escapes, malformed '%', every reserved character literal and escaped, "
-            "controls, space) in path (2 positions), query, fragment, user, password on a plain and an IDN authority; 27^2 "
+            "controls, space) in path (2 positions), query (2 positions), fragment, user, password on a plain authority (single atoms also on an IDN authority with userinfo and port); 10 authorities x 14^2 two-segment paths and x 10 queries x 7 fragments of IRIs in normal form (exact round trip); 27^2 "
             "two-segment paths x 6 queries x 4 fragments; 14 degenerate tails x 17 hosts.  environ: 59 path atoms and their "
-            "pairs as one and two segments, 25 base URLs (default / non-default ports, IDN, IPv6, script roots with escapes, "
-            "None) x 7 paths x 3 query modes, 35^2 key x value query pairs x 4 modes (dict, MultiDict, own-encoded string, "
-            "'?' in path) and repeated keys.  dispatcher: all 2^11 mount tables over {'/a','/a/b','/a/b/a','/b','/ab','/a/',"
+            "pairs as one and two segments, 27 base URLs (default / non-default ports, IDN, IPv6, script roots with escapes, "
+            "None) x 7 paths x 4 query modes, 35^2 key x value query pairs x 5 modes (dict, MultiDict, own-encoded string, "
+            "'?' in path, minimally encoded string) and 16^2 literal query-string spellings with invalid escapes (args only); Request.url / base_url / url_root / host_url and wsgi.get_current_url (4 forms) and repeated keys.  dispatcher: all 2^11 mount tables over {'/a','/a/b','/a/b/a','/b','/ab','/a/',"
             "'','/','/b/a','a','/a//b'} x request paths over {'/','a','b'} of length <= "
             + ("6 (all paths for tables of <= 3 mounts, a rotating third otherwise)" if tier == "quick" else "8")
             + " with and without an outer SCRIPT_NAME"
@@ -800,7 +983,7 @@ def replay(payload):
     inp = unj(payload["inputs"])
     F = _Fails()
     if "url" in inp and len(inp) == 1:
-        check_iri(inp["url"], F)
+        check_iri(inp["url"], F, exact=check.startswith("roundtrip_exact"))
     elif "mounts" in inp:
         check_dispatch(inp["mounts"], inp["path"], inp["script"], F)
     else:
